@@ -1352,8 +1352,6 @@ class Emitter:
                 if et is not None:
                     ct = self.ctype(et)
                     return ['VF_TYPED_MOVE(%s, %s, %s, %s);' % (ct, A[0], A[1], A[2])]
-                if all(not (args[k_][1][0] == 'local' and args[k_][1][1] in self.i8src) for k_ in (0, 1)):
-                    fn = fn[3:]   # genuine byte buffers (pointers are i8* at the source level): CBMC's built-in handles char arrays exactly
             return ['if (%s) %s(%s, %s, %s);' % (A[2], fn, A[0], A[1], A[2])]   # a zero-length copy touches nothing (dest may be null)
         if name.startswith('llvm.memset.'):
             v0 = args[0][1]
@@ -1471,22 +1469,16 @@ void vf_observe(uint64_t x) {}
    left element 0 unchanged).  These word/byte loops are used instead; their unwinding is bounded by
    --unwindset (VF_COPY_UNWIND) and checked by unwinding assertions. */
 void* vf_memcpy(void* d, const void* s, size_t n) {
-  if ((n & 7) == 0) { for (size_t i = 0; i < n / 8; i++) ((uint64_t*)d)[i] = ((const uint64_t*)s)[i]; }
-  else { for (size_t i = 0; i < n; i++) ((uint8_t*)d)[i] = ((const uint8_t*)s)[i]; }
+  for (size_t i = 0; i < n; i++) ((uint8_t*)d)[i] = ((const uint8_t*)s)[i];
   return d;
 }
 void* vf_memmove(void* d, const void* s, size_t n) {
-  _Bool backward = __CPROVER_POINTER_OBJECT(d) == __CPROVER_POINTER_OBJECT(s) && __CPROVER_POINTER_OFFSET(d) > __CPROVER_POINTER_OFFSET(s);
-  if ((n & 7) == 0) {
-    if (backward) { for (size_t i = n / 8; i > 0; i--) ((uint64_t*)d)[i - 1] = ((const uint64_t*)s)[i - 1]; }
-    else { for (size_t i = 0; i < n / 8; i++) ((uint64_t*)d)[i] = ((const uint64_t*)s)[i]; }
-  } else {
-    if (backward) { for (size_t i = n; i > 0; i--) ((uint8_t*)d)[i - 1] = ((const uint8_t*)s)[i - 1]; }
-    else { for (size_t i = 0; i < n; i++) ((uint8_t*)d)[i] = ((const uint8_t*)s)[i]; }
-  }
+  if (__CPROVER_POINTER_OBJECT(d) == __CPROVER_POINTER_OBJECT(s) && __CPROVER_POINTER_OFFSET(d) > __CPROVER_POINTER_OFFSET(s)) { for (size_t i = n; i > 0; i--) ((uint8_t*)d)[i - 1] = ((const uint8_t*)s)[i - 1]; }
+  else { for (size_t i = 0; i < n; i++) ((uint8_t*)d)[i] = ((const uint8_t*)s)[i]; }
   return d;
 }
-#define VF_TYPED_MOVE(T, D, S, N) do { T* d_ = (T*)(D); const T* s_ = (const T*)(S); size_t k_ = (size_t)(N) / sizeof(T); \
+#define VF_TYPED_MOVE(T, D, S, N) do { if ((size_t)(N) % sizeof(T) != 0) { vf_memmove((D), (S), (N)); break; } /* not a whole number of elements: the cast-from type is not the element type */ \
+  T* d_ = (T*)(D); const T* s_ = (const T*)(S); size_t k_ = (size_t)(N) / sizeof(T); \
   if (__CPROVER_POINTER_OBJECT(d_) == __CPROVER_POINTER_OBJECT(s_) && __CPROVER_POINTER_OFFSET(d_) > __CPROVER_POINTER_OFFSET(s_)) { for (size_t i_ = k_; i_ > 0; i_--) d_[i_ - 1] = s_[i_ - 1]; } \
   else { for (size_t i_ = 0; i_ < k_; i_++) d_[i_] = s_[i_]; } } while (0)
 void* memchr(const void* s, int c, size_t n) { const unsigned char* p = (const unsigned char*)s; for (size_t i = 0; i < n; i++) if (p[i] == (unsigned char)c) return (void*)(p + i); return 0; }
@@ -1640,7 +1632,7 @@ def main():
             if f.vararg: ps.append('...')
             if not ps: ps = ['void']
             protos.append('%s %s(%s);' % (gen(f.ret), em.gname(n), ', '.join(ps)))
-            if f.is_decl and n not in opts.modelled and any(re.search(rx, n) for rx in a.assert_external):
+            if f.is_decl and n not in opts.modelled and not n.startswith(PASSTHRU) and not n.startswith('nondet_') and n not in LIBC_BUILTIN and n not in ('memcpy', 'memmove') and any(re.search(rx, n) for rx in a.assert_external):
                 named = ', '.join('%s a%d' % (p_, k_) for k_, p_ in enumerate(ps)) if ps != ['void'] else 'void'
                 rt_ = gen(f.ret)
                 retst = '' if rt_ == 'void' else (' return (%s)0;' % rt_ if (rt_.endswith('*') or rt_.startswith('uint') or rt_ == '_Bool') else ' { %s z_ = {0}; return z_; }' % rt_)
